@@ -180,6 +180,9 @@ def _check_guard(ctx: Ctx, sp: Guard, canonical: bool) -> Ob:
     if not escaped:
         if sp.exc is not None and sp.exc not in raised:
             return viol("R8", sp.func, inst, f"under {_fmt(sp.env)} the function raises {raised}, not the documented {sp.exc}", f.loc)
+        if sp.exc is not None and any(r != sp.exc and r != "return None" for r in raised):
+            others = [r for r in raised if r != sp.exc]
+            return viol("R8", sp.func, inst, f"under {_fmt(sp.env)} the function can raise {others} before it reaches the documented {sp.exc}: for some values of the other arguments the refusal has another type (the documented error is promised for *any* such input, so its check has to come first)", f.loc)
         return ok("R8", sp.func, inst, f"under {_fmt(sp.env)} {start_desc} cannot complete normally (raises {raised})" + (" [conditions matched under canonical names of the locals]" if canonical else ""), f.loc)
     # escaped: is it because the guard is gone / weakened, or because we cannot read it?
     tests = _tests_text(f.node)
@@ -330,6 +333,8 @@ ANY_SPELLINGS = (
 EXTRA_CANON_SPECS = [
     Guard(FUNC + "evidence", "partial-multivariate", {"isinstance(sl, InputLayer)": True, "sl.scope & scope": True, "sl.scope <= scope": False}),
     Guard("cirkit.backend.torch.queries.IntegrateQuery._layer_fn", "nothing-selected", {"isinstance(layer, TorchInputLayer)": True, "layer.num_variables > 1": False, **{k: False for k in ANY_SPELLINGS}}),
+    Guard(FUNC + "multiply", "overlap-different-scope", {"sc1.scope != sc2.scope": False, "are_compatible(sc1, sc2)": True, "pair in layers_to_block": False,
+          "sc1.layer_scope(l1) & sc2.layer_scope(l2)": True, "sc1.layer_scope(l1) != sc2.layer_scope(l2)": True}),
     Guard(FUNC + "multiply", "disjoint-different-size", {"sc1.scope != sc2.scope": False, "are_compatible(sc1, sc2)": True, "pair in layers_to_block": False,
           "sc1.layer_scope(l1) & sc2.layer_scope(l2)": False, "l1.num_output_units != l2.num_output_units": True}),
 ]
